@@ -1,6 +1,7 @@
 import PyamgV.Props.Restate
 import PyamgV.Proofs.C13Wrap
 import PyamgV.Proofs.C13Rat
+import PyamgV.Proofs.ExtC13Pmis
 
 /-! # C13 — coarse/fine splittings are well formed and cover the strength graph
 
@@ -69,6 +70,25 @@ restate cljp_rat := PyamgV.C13.cljp_rat
 /-- `PMIS` with rational weights -/
 restate pmis_rat := PyamgV.C13.pmis_rat
 
+/-! ## one definition: the array form run by the driver is the proof-side form -/
+/-- the array MIS model with the kernel's `while (active_nodes)` stopping rule (fuel `n + 2`) performs
+exactly the `n` proof-side sweeps -/
+restate mis_array_model_eq_sweeps := PyamgV.C13.misParallel_eq_parIter
+/-- a sweep that leaves `active_nodes == false` leaves no active node -/
+restate mis_active_flag_meaning := PyamgV.C13.cfold_flag
+/-- `pmisSplitK = pmisSplit` for every pattern, weight array and `dirichlet` setting -/
+restate pmis_array_form_eq := PyamgV.C13.pmisSplitK_eq
+/-- the instance the driver op `c13_pmis` prints side by side -/
+restate pmis_array_form_eq_rat := PyamgV.C13.pmisSplitK_eq_rat
+/-- `PMISc`, array form: 0/1 flags, independent and dominating in `S ∪ Sᵀ` -/
+restate pmisc_array_spec := PyamgV.C13.pmiscK_spec
+/-- `PMIS`, array form -/
+restate pmis_array_spec := PyamgV.C13.pmisK_spec
+restate pmis_array_has_coarse := PyamgV.C13.pmisK_has_coarse
+/-- `RS(S, second_pass=True)` keeps every C-point of `RS(S)` (any pattern) -/
+restate rs_two_pass_keeps_coarse := PyamgV.C13.rs_two_pass_keeps_coarse
+restate kernel_rs_pass2_keeps_coarse := PyamgV.C13.pass2_keep
+
 /-! ## kernel level (arrays as handed to the kernels; hypotheses discharged above for the wrappers) -/
 restate kernel_rs_independent := PyamgV.RS.rs_independent
 restate kernel_rs_dominating := PyamgV.RS.rs_dominating'
@@ -89,5 +109,7 @@ example : PyamgV.C13.SymPat path4 := by
     (j ∈ PyamgV.C13.offRow path4 i ↔ i ∈ PyamgV.C13.offRow path4 j)) i hi j hj
 /-- the edge hypothesis of the `…_has_coarse` theorems -/
 example : 2 ∈ PyamgV.C13.offRow path4 1 := by decide
+/-- the only hypothesis of `pmis_array_form_eq` (strictly totally ordered weights) is satisfiable -/
+example : PyamgV.WOrd Rat := PyamgV.C13.ratOrd
 
 end PyamgV.Props.C13
